@@ -74,6 +74,12 @@ def gen_C11(g, tier):
             cs.append(Case('o.c11.arith %s %s' % (frs(a), frs(b)), 'orc', cls))
         cs.append(Case('e.cmul %s' % frs(a + a + a + a), 'cmp', 'operands-equal'))
         cs.append(Case('e.cmul %s' % frs(a + o + a + o), 'cmp', 'operands-equal'))
+    # divisors over the whole exponent range (double: 1e-150..1e150 keeps 1/x^4 out of reach of a naive x^4; float: 1e-18..1e18)
+    for _ in range(max(10, n // 2)):
+        ex = g.choice([g.r.uniform(-140, 140), g.r.uniform(-75, 75), g.r.uniform(70, 140), g.r.uniform(-140, -70), g.r.uniform(-9, 9), g.r.uniform(8, 9.5), g.r.uniform(-9.5, -8)])
+        x = g.choice([-1, 1]) * g.r.uniform(1, 9.99) * 10 ** ex
+        var = 10 ** (g.r.uniform(-3, 3) + 2 * ex); a = g.r.uniform(-3, 3); avar = g.r.uniform(0.01, 2)
+        cs.append(Case('o.c11.range %s' % hexes([x, 0.0, var, 0.0, a, 0.0, avar, 0.0]), 'orc', 'inverse-exponent-range', check=small_hex_check(1e-9)))
     cs.append(Case('e.div 1 1/2 0 1/3', 'cmp', 'divide-by-zero'))
     cs.append(Case('e.inverse 0 1/3', 'cmp', 'divide-by-zero'))
     for f, dom in DOMAINS.items():
@@ -150,6 +156,12 @@ def gen_C12(g, tier):
                 for perm in itertools.permutations(range(n)):
                     for t in trees(list(perm))[:5]:
                         cs.append(Case('me.tree %d %s %s' % (n, frs(vals), t), 'cmp', 'tree-n%d' % n))
+    # assignment in the middle of a history (zero-variance items included: they are skipped by += but an assignment still resets)
+    for _ in range(12 if tier == 'quick' else 300):
+        n = g.randint(2, 6); k = g.randint(1, n - 1); vals = est_seq(g, n)
+        if g.random() < 0.5: vals[2 * k + 1] = F(0)          # the assigned estimate has zero variance
+        for mode in (0, 1, 2):
+            cs.append(Case('o.c12.assign %d %d %d %s' % (n, k, mode, frs(vals)), 'orc', 'assignment-forgets-history'))
     for _ in range(3 if tier == 'quick' else 40):
         n = g.randint(50, 400 if tier == 'quick' else 2000)
         cs.append(Case('me.fold %d %s' % (n, frs(est_seq(g, n))), 'cmp', 'long-sequence'))
@@ -175,6 +187,9 @@ def gen_C12(g, tier):
         a = g.choice([3.0, 2.5, 0.5, 1.0, 2.0, g.r.uniform(0.05, 3.1)]); v = g.choice([1.0, 0.01, g.r.uniform(0.01, 2)]); copies = g.choice([1, 1, 2, 3])
         cs.append(Case('o.c12.mirror %d %s' % (2 * copies, hexes([a, v, -a, v] * copies)), 'orc', 'circular-mirror-pair', check=direction_check))
         cs.append(Case('o.c12.circ %d %s' % (n, hexes(ang)), 'orc', 'circular-all-orders', check=small_hex_check(1e-9)))
+        if n >= 2:
+            k = g.randint(1, n - 1)
+            cs.append(Case('o.c12.rassign %d %d %s' % (n, k, hexes(ang)), 'orc', 'circular-assignment-forgets-history'))
     return cs
 
 
